@@ -472,7 +472,7 @@ func init() {
 			fullPerm = 5
 		}
 		type cq struct{ q, opt string }
-		for pass := 0; pass < 2; pass++ {
+		for pass := 0; pass < 3; pass++ {
 			for n := 0; n <= maxN; n++ {
 				base := c11Data(n)
 				if pass == 1 {
@@ -482,6 +482,16 @@ func init() {
 						continue
 					}
 					base = c11SpecialData(n)
+				}
+				if pass == 2 {
+					// third pass: result series that share a label set once the metric name is
+					// dropped and take turns in time (the engine merges them into one series),
+					// with other series between them in every storage order
+					if n != 4 {
+						continue
+					}
+					base = []core.SeriesSpec{gen.Regular(`a{l="0"}`, 0, 30000, 5, 1, 1), gen.Regular(`d{l="0"}`, 210000, 30000, 7, 50, 1), gen.Regular(`a{l="1"}`, 0, 30000, 14, 100, 1),
+						gen.Regular(`d{l="2"}`, 0, 30000, 14, 200, 1), gen.Regular(`b{l="0"}`, 0, 30000, 14, 3, 1)}
 				}
 				na := n
 				var perms [][]int
@@ -508,6 +518,12 @@ func init() {
 				if pass == 1 {
 					cqs = nil
 					for _, q := range []string{`topk(2, a)`, `bottomk(2, a)`, `topk(3, a)`, `bottomk(1, a)`, `topk by (l) (1, a)`, `max(a)`, `min(a)`, `sum(a)`, `avg(a)`, `quantile(0.5, a)`, `max by (l) (a)`} {
+						cqs = append(cqs, cq{q, "none"})
+					}
+				}
+				if pass == 2 {
+					cqs = nil
+					for _, q := range []string{`abs({__name__=~"a|d"})`, `-{__name__=~"a|d"}`, `{__name__=~"a|d"} + 1`, `sum_over_time({__name__=~"a|d"}[1m])`, `{__name__=~"a|d"} * on (l) group_left b`} {
 						cqs = append(cqs, cq{q, "none"})
 					}
 				}
@@ -596,14 +612,14 @@ func init() {
 // C20: histories on one long-lived engine
 
 type histOp struct {
-	Kind string `json:"kind"` // query | query-lookback | failing | instant | instant-failing | cancelled | fallback | append-sample | append-series
+	Kind string `json:"kind"` // query | query-lookback | query-shifted | failing | instant | instant-failing | cancelled | fallback | append-sample | append-series
 	Q    string `json:"q,omitempty"`
 }
 
 var histOps = []histOp{
 	{"query", `a`}, {"query", `sum by (l) (rate(a[1m]))`}, {"query", `a + on (l) group_left b`}, {"query", `topk(1, a) + scalar(sum(b))`},
 	{"query", `h_bucket`}, {"query", `histogram_quantile(0.5, h_bucket)`}, {"query-lookback", `a`},
-	{"failing", `a + on (l) b`}, {"instant", `abs(a)`}, {"instant-failing", `abs({__name__=~"a|b"})`}, {"cancelled", `sum by (l) (a)`}, {"fallback", `count_values("v", a)`}, {"append-sample", ""}, {"append-series", ""},
+	{"query-shifted", `a @ start() + a @ end()`}, {"failing", `a + on (l) b`}, {"instant", `abs(a)`}, {"instant-failing", `abs({__name__=~"a|b"})`}, {"cancelled", `sum by (l) (a)`}, {"fallback", `count_values("v", a)`}, {"append-sample", ""}, {"append-series", ""},
 }
 
 type kept struct {
@@ -636,13 +652,14 @@ func runHistory(ops []histOp, pool string) (sym, det string, evals int64) {
 	appended := 0
 	var qopts *promql.QueryOpts
 	instant := false
+	shift := int64(0) // "query-shifted": the same text over a window that moves with the position in the history
 	exec := func(e rangeEngine, q string, cancelIt bool) (*promql.Result, promql.Query, error) {
 		var qq promql.Query
 		var err error
 		if instant {
 			qq, err = e.NewInstantQuery(st, qopts, q, time.UnixMilli(100000).UTC())
 		} else {
-			qq, err = e.NewRangeQuery(st, qopts, q, time.UnixMilli(w.Start).UTC(), time.UnixMilli(w.End).UTC(), time.Duration(w.Step)*time.Millisecond)
+			qq, err = e.NewRangeQuery(st, qopts, q, time.UnixMilli(w.Start+shift).UTC(), time.UnixMilli(w.End+shift).UTC(), time.Duration(w.Step)*time.Millisecond)
 		}
 		if err != nil {
 			return nil, nil, err
@@ -671,6 +688,10 @@ func runHistory(ops []histOp, pool string) (sym, det string, evals int64) {
 		default:
 			qopts = nil
 			instant = strings.HasPrefix(op.Kind, "instant")
+			shift = 0
+			if op.Kind == "query-shifted" {
+				shift = int64(i) * 30000
+			}
 			if op.Kind == "query-lookback" {
 				// a per-query lookback shorter than the gap of the series appended later
 				qopts = &promql.QueryOpts{LookbackDelta: 20 * time.Second}
